@@ -578,6 +578,7 @@ struct Exec {
                 r.set("file", dst);
                 r.set("repeat", (every && n % every == 0) ? 2 : 1);
                 if (op.geti("no_error_code_every", 0) > 0 && n % (uint64_t)op.geti("no_error_code_every") == 1) r.set("no_error_code", true);
+                if (op.geti("no_signature_every", 0) > 0 && n % (uint64_t)op.geti("no_signature_every") == 2) r.set("no_signature", true);
                 if (rd.s == "gds_info" && n % 5 == 3) r.set("reuse_summary", true);
                 size_t before = res.viols.size();
                 opname = rd.s;
@@ -820,12 +821,16 @@ struct Exec {
             } else if (reader == "oas_validate") {
                 uint32_t sig = 0;
                 bool ok = false;
-                returned = guarded([&]() { ok = oas_validate(file.c_str(), &sig, ecp); });
+                // the signature out-parameter is optional too ("only the verdict")
+                const bool no_sig = op.getb("no_signature");
+                uint32_t* sigp = no_sig ? NULL : &sig;
+                if (no_sig) ctx.set("no_signature", true);
+                returned = guarded([&]() { ok = oas_validate(file.c_str(), sigp, ecp); });
                 int scheme = finfo[ref].oas_sig;
                 ctx.set("signed", scheme);
                 // documented: true also means "no validation data", told apart by the error code or, without
-                // one, by the signature reported as zero
-                if (returned && trunc == 1 && scheme != 0 && ok && (no_ec ? sig != 0 : ec == ErrorCode::NoError))
+                // one, by the signature reported as zero (with neither there is nothing to tell them apart by)
+                if (returned && trunc == 1 && scheme != 0 && ok && (no_ec ? (!no_sig && sig != 0) : ec == ErrorCode::NoError))
                     viol("C18", "truncated_signature_accepted",
                          "oas_validate reported a matching signature for a signed file cut at byte " + std::to_string(flen) + " of " + std::to_string(W->fs.bytes(ref).size()), ctx);
                 if (returned && trunc == 0 && oas && scheme != 0 && !(ok && ec == ErrorCode::NoError))
@@ -2474,6 +2479,41 @@ struct Exec {
         return memo[cell] = r2;
     }
 
+    // does the cell hold, somewhere below it, a path that is written as its outline?  (outline vertices are not
+    // grid points before the writer rounds them)
+    static bool holds_outline(const model::MLib& m, const std::string& cell, std::map<std::string, bool>& memo) {
+        auto it = memo.find(cell);
+        if (it != memo.end()) return it->second;
+        memo[cell] = false;
+        const model::MCell* c = m.find(cell);
+        bool r2 = false;
+        if (c) {
+            for (auto& p : c->paths)
+                if (!p.simple) r2 = true;
+            for (auto& r : c->refs)
+                if (!r2 && holds_outline(m, r.target, memo)) r2 = true;
+        }
+        return memo[cell] = r2;
+    }
+    // is such an outline seen from this cell through a magnification or a turn that is not a multiple of 90
+    // degrees?  Then the box of the unrounded outline (what the writer states) and the box of the rounded
+    // vertices (what the file holds), each transformed, can differ by more than the rounding of one coordinate
+    static bool outline_under_transform(const model::MLib& m, const std::string& cell, std::map<std::string, bool>& memo, std::map<std::string, bool>& omemo) {
+        auto it = memo.find(cell);
+        if (it != memo.end()) return it->second;
+        memo[cell] = false;
+        const model::MCell* c = m.find(cell);
+        bool r2 = false;
+        if (c)
+            for (auto& r : c->refs) {
+                bool plain = r.mag == 1 && fmod(r.rot_deg, 90.0) == 0;
+                if (!plain && holds_outline(m, r.target, omemo)) r2 = true;
+                if (!r2 && outline_under_transform(m, r.target, memo, omemo)) r2 = true;
+                if (r2) break;
+            }
+        return memo[cell] = r2;
+    }
+
     const model::MVal* std_val(const std::vector<model::MProp>& ps, const char* name, size_t idx) {
         for (auto& p : ps)
             if (p.name == name && idx < p.vals.size()) return &p.vals[idx];
@@ -2586,9 +2626,13 @@ struct Exec {
             const model::MVal* av = std_val(d.file_props, "S_BOUNDING_BOXES_AVAILABLE", 0);
             if (bbox_requested && (!av || av->u != 2)) viol(prop, "s_bounding_boxes_available", "S_BOUNDING_BOXES_AVAILABLE is missing or not 2", ctx);
             std::map<std::string, CellGeo> geo_memo;
-            std::map<std::string, bool> by_name_memo;
+            std::map<std::string, bool> by_name_memo, out_memo, outt_memo;
             for (size_t i = 0; i < d.cells.size(); i++) {
                 const oaspeer::CellFacts& cf = d.cells[i];
+                if (outline_under_transform(m, cf.name, outt_memo, out_memo)) {
+                    count("bbox_skipped_outline_under_transform");
+                    continue;
+                }
                 const CellGeo& geo = cell_geo(d.lib, d.lib.cells[i], geo_memo);
                 const std::vector<P2>& pts = geo.hull;
                 bool exact = geo.exact, usable = geo.usable;
